@@ -70,10 +70,32 @@ def plan(prop, tier):
             ["cqe:interrupt", "interrupted_attempts", "resolved:Single", "resolved:Multi"],
             level="exploration",
         )
+    if prop == "C04":
+        rule = ("(a) exhaustive single-threaded sweep: queue sizes 1,2,4,8 x counters started at 0, 2^31-2..2^31 and 2^32-k for k<=2*size+1, 3*size+3 reads each; "
+                "(b) baton-scheduler schedules: 2-4 submitter threads + ring thread (+ simulated SQPOLL kernel thread) on 1-8 entry queues, kernel consuming/completing at every entry, "
+                "seeded random-walk and PCT schedules switching at the a10_verif scheduling points; non-trivial = at least 2 context switches; distinct = hash of the switch sequence + configuration")
+        if tier == "quick":
+            jobs = [gen_job("c04", "native-debug", 100, 16, timeout=400)]
+        else:
+            jobs = [gen_job("c04", "native-debug", 2500, 16, timeout=3000), gen_job("c04", "native-release", 2500, 16, timeout=3000),
+                    gen_job("c04", "asan", 300, 16, timeout=3000), gen_job("c04free", "tsan", 40, 8, timeout=3000)]
+        return dict(jobs=jobs, level="exploration", rule=rule, floor_cells=["wrap-sweep:size=1", "wrap-sweep:size=8", "sq=1", "sq=2", "start=near-2^32", "submitters=2", "sqpoll=true", "sched_switches"],
+                    floor_evaluations=500, assumptions=SIMK_ASSUMPTIONS + ["the scheduler only switches threads at the hook points: interleavings inside other instruction sequences and weak-memory effects are left to the TSan/free-running jobs of the thorough tier"], also=[])
+    if prop == "C14":
+        rule = ("pure calls on every provided Buf/BufMut/BufSlice/BufMutSlice implementation and wrapper: Vec capacities 0..12 x fill levels x n exhaustively, random larger ones, "
+                "arrays and tuples of arity 1..8, limits {0,1,cap-1,cap,cap+1,2^32-1,2^32,2^32+5,2^40,usize::MAX}, nested limits; oracle = pointer bounds of the vector + Vec<u8> model; distinct = distinct (type, geometry, n, limit) tuples")
+        if tier == "quick":
+            jobs = [gen_job("c14", "native-debug", 60, 8), gen_job("c14", "miri", 1, 2, timeout=900)]
+        else:
+            jobs = [gen_job("c14", "native-debug", 3000, 16, timeout=1800), gen_job("c14", "native-release", 3000, 16, timeout=1800), gen_job("c14", "miri", 4, 16, timeout=2400)]
+        return dict(jobs=jobs, level="exploration", rule=rule, floor_cells=["class:BufMut:Vec", "class:BufMut:LimitedBuf<Vec>", "class:BufMutSlice:array8", "class:BufMutSlice:tuple8", "class:BufSlice:limited-array8", "class:Buf:LimitedBuf", "class:Buf:all-types"],
+                    floor_evaluations=1000, assumptions=["IoSlice/IoMutSlice have the layout of struct iovec (a10 hands arrays of them to the kernel as iovecs)", "only the listed buffer types are covered; ReadBuf is covered by C15"], also=[])
     return None
 
 
 ENGINES = [
+    dict(name="baton-scheduler", path="/verif/harness/src/sched.rs, src/props/mt.rs", serves_properties=["C04"], kind_free_text="runtime monitoring: real threads, one running at a time, seeded scheduler switching at the cfg(a10_verif) hook points; reproducible schedules"),
+    dict(name="pure-sweep", path="/verif/harness/src/props/c14.rs", serves_properties=["C14"], kind_free_text="differential sweep of pure functions against a reference model, natively and under Miri"),
     dict(name="simk-explorer", path="/verif/harness (scenarios c01..c09 on src/simk, src/world.rs, src/props/generic.rs)", serves_properties=["C01", "C02", "C03", "C05", "C06", "C09"], kind_free_text="runtime monitoring: real a10 driven single-threaded against an in-process simulated io_uring kernel with adversarial completion timing; boundary oracles (allocator monitor, waker ledger, descriptor ledger, request log)"),
 ]
 
@@ -97,6 +119,12 @@ CLAIMS = {
     "C06": dict(level="exploration", engine="simk-explorer", design_ref="DESIGN.md 4 C06", note=_NOTE,
                 technique="cancel-request log vs drop log at the kernel boundary; allocator monitor (quarantine, exactly-once, leak ledger after teardown)",
                 text="Every ASYNC_CANCEL the simulated kernel receives is matched against the operations the history dropped while running (target, count, room in the queue at the drop); the allocator monitor reports state freed twice, freed while its completion is still unconsumed, or still live after the ring was dropped, over all op kinds x drop points x cancel outcomes the generator reaches (matrix printed in the evidence)."),
+    "C04": dict(level="exploration", engine="baton-scheduler", design_ref="DESIGN.md 4 C04", note=_NOTE + "; the scheduler explores sequentially consistent interleavings at the hook points only",
+                technique="controlled thread schedules (baton scheduler at a10_verif hook points) over the real submission queue + simulated kernel consuming entries; exhaustive counter wrap sweep",
+                text="The simulated kernel checks at every consumption that the tail is never more than `entries` ahead of its head, that no consumed entry is empty/reset and that no single-shot user_data is in flight twice; the scenario gives every read a unique offset so that lost, duplicated or modified submissions are identified exactly. Thread interleavings are produced deterministically by a seeded scheduler that switches at the lock, shared-load and tail-store points inside a10; every queue size x counter start value combination near the 2^31/2^32 wrap is swept exhaustively single-threaded."),
+    "C14": dict(level="exploration", engine="pure-sweep", design_ref="DESIGN.md 4 C14", note="trusted base: the Vec<u8> reference model in the harness; IoSlice/IoMutSlice == struct iovec",
+                technique="differential sweep against a Vec<u8> model with pointer-bounds checks; the same sweep under Miri",
+                text="All buffer trait implementations and wrappers are exercised with systematic geometries (small ones exhaustively) and the full limit range including values >= 2^32; every exposed (ptr,len) must lie inside the vector's own spare capacity/contents, the reported lengths must agree, and writing a keyed pattern through the exposed pointers followed by set_init(n) must append exactly n bytes in order. Miri additionally turns any out-of-bounds or uninitialised access into an error."),
     "C09": dict(level="exploration", engine="simk-explorer", design_ref="DESIGN.md 4 C09", note=_NOTE,
                 technique="fault injection of EINTR/ECANCELED completions with byte-for-byte comparison of re-issued submissions",
                 text="More than half of all completions in this scenario are EINTR/ECANCELED; the caller must never observe them, every re-issued submission must be byte-identical (opcode, fd, flags, offsets, addresses, lengths, user_data) to the first, failed attempts scribble the buffers so mixed data would show, and the value must be the last attempt's."),
